@@ -194,8 +194,15 @@ def gen_multi_case(r, big=False):
                 ev.append(e)
             if r.random() < 0.2:
                 ev.append(list(ev[-1]))             # duplicate
-        elif x < 0.94:
+        elif x < 0.93:
             ev.append(["Q"])
+        elif x < 0.96 and sent:
+            # a NON response from the peer: token of some message (implicit acknowledgement) or a
+            # foreign token; its mid is from the peer's id space and sometimes collides with ours
+            m = r.choice(sent)
+            tok = m[4] if r.random() < 0.6 else r.choice(["-", "0badc0de", m[4][:-2] or "-"])
+            mid = r.choice(sent)[2] if r.random() < 0.6 else r.randrange(65536)
+            ev.append(["N", m[1] if r.random() < 0.85 else r.randrange(ns), mid, r.choice([69, 68, 132]), tok])
         else:
             ev.append(["R" if r.random() < 0.5 else "K", r.randrange(ns), r.randrange(65536)])
         no_empty_ack_for_request(ev, sent)
